@@ -296,6 +296,8 @@ func famC01(r *Run) {
 		text := t.text(textOpts{})
 		r.addTree("raw-strings", t, text, doc, "exact")
 	}
+	famNumberSpellings(r)
+	famNearTwins(r)
 }
 
 // ---- C02: projections ----
@@ -332,6 +334,7 @@ func famC02(r *Run) {
 		text := t.text(textOpts{})
 		r.addTree("null-sensitive-rhs", t, text, doc, modeFor(text, doc))
 	}
+	famFunctionEdges(r)
 }
 
 // ---- C03: precedence ----
@@ -508,6 +511,7 @@ func famC04(r *Run) {
 		r.addTree("G-expr-valid", t, vt, nil, modeFor(vt, nil))
 	}
 	famC04extra(r)
+	famBackslashRuns(r)
 }
 
 // ---- C05: no panic, always returns ----
@@ -644,6 +648,8 @@ func famC05(r *Run) {
 		}
 	}
 	famC05extra(r)
+	famChains(r)
+	famManyDistinct(r)
 }
 
 // ---- C06: input never modified (the generic oracle does the work) ----
@@ -670,6 +676,7 @@ func famC06(r *Run) {
 		r.addTree("G-fun-shared", t, text, doc, modeFor(text, doc))
 	}
 	famC06extra(r)
+	famFunctionEdges(r)
 }
 
 // ---- C07: truth, logic, comparators ----
@@ -730,6 +737,7 @@ func famC07(r *Run) {
 		r.addTree("filter-truth", t, t.text(textOpts{}), docs[0], "exact")
 	}
 	r.corpusSearch("compliance", func(f exprFeatures) bool { return f.lexOK && f.logic && !f.funcs && !f.orderExposing })
+	famNotComparisons(r)
 }
 
 // ---- C08: slices ----
@@ -797,6 +805,7 @@ func famC08(r *Run) {
 			r.addSearch("compliance:slice.json", c.Expr, c.Given, "exact")
 		}
 	}
+	famNumberSpellings(r)
 }
 
 // ---- C09: functions on well-typed arguments ----
@@ -891,6 +900,7 @@ func famC09(r *Run) {
 		}
 	}
 	famToNumber(r)
+	famFunctionEdges(r)
 }
 
 // ---- C10: ill-typed calls ----
@@ -953,6 +963,7 @@ func famC10(r *Run) {
 			r.addSearch("compliance:functions.json", c.Expr, c.Given, "perm")
 		}
 	}
+	famFunctionEdges(r)
 }
 
 // ---- C11: error propagation ----
@@ -1029,6 +1040,7 @@ func famC11(r *Run) {
 		}
 	}
 	r.treeCases("G-expr-badcalls", r.n(600, 10000), Features{Proj: true, Logic: true, Funcs: true, BadCalls: true, Paren: true}, 5)
+	famFunctionEdges(r)
 }
 
 func i64(v int64) *int64 { return &v }
@@ -1077,6 +1089,8 @@ func famC17(r *Run) {
 		}
 		check("G-tok", joinToks(toks, textOpts{rng: r.rng, spaces: r.rng.Intn(2) == 0}))
 	}
+	famMustCompileText(r)
+	famBadUTF8Offsets(r)
 }
 
 func (r *Run) contractC17(family, expr string) {
